@@ -22,6 +22,24 @@ type c13Case struct {
 	How     string   `json:"how"`               // how the string was constructed
 	Company []string `json:"company,omitempty"` // valid patterns listed with it (before it, or after it when After is set)
 	After   bool     `json:"company_after,omitempty"`
+	// Ctx > 0: the rest of the configuration is invalid too (c13Contexts); the defective string must still be named
+	Ctx int `json:"invalid_context,omitempty"`
+}
+
+// c13Contexts make the rest of a configuration invalid, each in another field.
+var c13Contexts = []func(*cors.Config){nil,
+	func(c *cors.Config) { c.PreflightSuccessStatus = 999 },
+	func(c *cors.Config) { c.PrivateNetworkAccess, c.PrivateNetworkAccessInNoCORSModeOnly = true, true },
+	func(c *cors.Config) {
+		c.MaxAgeInSeconds = -5
+		c.Methods = []string{"bad method"}
+		c.ResponseHeaders = []string{"Set-Cookie"}
+	},
+	func(c *cors.Config) {
+		c.Credentialed = true
+		c.Origins = append([]string{"*"}, c.Origins...)
+		c.RequestHeaders = []string{"Cookie"}
+	},
 }
 
 func c13Judge(k c13Case) *vlib.Failure {
@@ -32,6 +50,24 @@ func c13Judge(k c13Case) *vlib.Failure {
 		list = append(append([]string(nil), k.Company...), k.Pattern)
 	}
 	cfg := cors.Config{Origins: list, ExtraConfig: cors.ExtraConfig{DangerouslyTolerateSubdomainsOfPublicSuffixes: true}}
+	if k.Ctx > 0 {
+		c13Contexts[k.Ctx](&cfg)
+		_, err := cors.NewMiddleware(cfg)
+		err2 := new(cors.Middleware).Reconfigure(&cfg)
+		for _, e := range []error{err, err2} {
+			named := false
+			for leaf := range cfgerrors.All(e) {
+				var u *cfgerrors.UnacceptableOriginPatternError
+				if e != nil && errors.As(leaf, &u) && u.Value == k.Pattern {
+					named = true
+				}
+			}
+			if !named {
+				return vlib.Failf("%q (%s), listed in a configuration that is also wrong elsewhere (context %d), is not named by any UnacceptableOriginPatternError; the error is: %v", k.Pattern, k.How, k.Ctx, e)
+			}
+		}
+		return nil
+	}
 	m, err := cors.NewMiddleware(cfg)
 	_, perr := origins.ParsePattern(k.Pattern)
 	if (err == nil) != (perr == nil) {
@@ -420,6 +456,10 @@ func checkC13(c *vlib.Ctx) (string, string) {
 				nInvalid++
 				c.Nontrivial.Add(1)
 				ck.Try(c13Case{Pattern: m, How: d.name + " applied to " + s})
+				for ctx := 1; ctx < len(c13Contexts); ctx++ {
+					nCompany++
+					ck.Try(c13Case{Pattern: m, How: d.name + " applied to " + s, Ctx: ctx})
+				}
 				// the same string listed after / before valid patterns that cover what it would denote
 				for _, co := range comps {
 					nCompany += 2
